@@ -73,6 +73,10 @@ CaseResult one_round(Tape &t, int round)
   }
   if (plan.eff[0] == sc::T_PIPE && t.chance(1, 6)) plan.input_size = (long) t.range(0, 500);
   plan.nonblocking = t.chance(1, 5);
+  // fork mode: "the started program" is the forked copy of this process; it
+  // lists its own descriptors and leaves
+  bool fork_round = t.chance(1, 6);
+  if (fork_round) plan.fork = true;
 
   struct Extra {
     int fd;
@@ -167,10 +171,29 @@ CaseResult one_round(Tape &t, int round)
     return res;
   }
 
-  const char *argv[] = { pup.exe().c_str(), "c11", nullptr };
+  const char *argv_exec[] = { pup.exe().c_str(), "c11", nullptr };
+  const char *const *argv = fork_round ? nullptr : argv_exec;
+  std::string fork_report = root + "/fork-fds";
   auto fds_before = snapshot_self_fds();
   reproc_t *p = reproc_new();
   int r = reproc_start(p, argv, b.opt);
+  if (fork_round && r == 0) {
+    // child side
+    std::string out;
+    for (auto &kv : snapshot_self_fds()) {
+      out += std::to_string(kv.first) + " " + std::to_string((unsigned long long) kv.second.ino) + " " + std::to_string(S_ISFIFO(kv.second.mode) ? 1 : 0) + " " + std::to_string(kv.second.fl & O_ACCMODE) + "\n";
+    }
+    int fd = open((fork_report + ".tmp").c_str(), O_WRONLY | O_CREAT | O_TRUNC, 0644);
+    if (fd >= 0) {
+      // the report descriptor itself is not part of what was inherited
+      out = "self " + std::to_string(fd) + "\n" + out;
+      write_all(fd, out.data(), out.size());
+      close(fd);
+      rename((fork_report + ".tmp").c_str(), fork_report.c_str());
+    }
+    reproc_destroy(p);
+    _exit(0);
+  }
   setrlimit(RLIMIT_NOFILE, &rl);
 
   res.nontrivial = inheritable > 0 || placed_top;
@@ -196,6 +219,55 @@ CaseResult one_round(Tape &t, int round)
     } else {
       res.fail("start-failed", "reproc_start failed with " + std::to_string(r) + " (" + strerror(-r) + ")");
     }
+    reproc_destroy(p);
+  } else if (fork_round) {
+    res.cls("fork-mode");
+    wait_dead(reproc_pid(p), 10000);
+    std::string rep = slurp(fork_report);
+    if (rep.empty()) res.fail("fork-child-no-report", "the forked child left no descriptor report");
+    else {
+      std::set<uint64_t> parent_pipe_inodes;
+      int own[32];
+      int n = vs_own_open_fds(own, 32);
+      for (int i = 0; i < n && i < 32; i++) {
+        FdId id = fd_id(own[i]);
+        if (id.open && S_ISFIFO(id.mode)) parent_pipe_inodes.insert(id.ino);
+      }
+      // lines: "<fd> <ino> <fifo> <accmode>"; the snapshot was taken while /proc/self/fd
+      // was open, which snapshot_self_fds already leaves out
+      std::vector<int> leaked;
+      int exit_like = 0;
+      // Without an exec the child keeps its own ends of the redirects open next
+      // to 0-2 (the caller closes them; code comment in process_start): an extra
+      // descriptor that is the same object, in the same direction, as one of
+      // the child's standard streams is therefore expected. Anything else -
+      // notably the *parent's* end of one of those pipes - is not.
+      struct Ent { int fd; unsigned long long ino; int fifo, acc; };
+      std::vector<Ent> ents;
+      size_t pos = 0;
+      while (pos < rep.size()) {
+        size_t e = rep.find('\n', pos);
+        if (e == std::string::npos) break;
+        Ent en;
+        if (sscanf(rep.c_str() + pos, "%d %llu %d %d", &en.fd, &en.ino, &en.fifo, &en.acc) == 4) ents.push_back(en);
+        pos = e + 1;
+      }
+      for (auto &en : ents) {
+        if (en.fd <= 2 || en.fd >= limit) continue;
+        bool own_stream_copy = false;
+        for (auto &st : ents)
+          if (st.fd <= 2 && st.ino == en.ino && st.acc == en.acc) own_stream_copy = true;
+        bool is_exit = en.fifo && parent_pipe_inodes.count(en.ino) && en.acc == O_WRONLY && !own_stream_copy && exit_like == 0;
+        if (is_exit) exit_like++;
+        else if (!own_stream_copy) leaked.push_back(en.fd);
+      }
+      if (!leaked.empty()) {
+        std::string l;
+        for (size_t i = 0; i < leaked.size() && i < 10; i++) l += " " + std::to_string(leaked[i]);
+        res.fail("inherited-extra", "fork mode: below the descriptor limit (" + std::to_string(limit) + ") the forked child holds descriptors beyond 0, 1, 2 and the exit handle:" + l);
+      }
+    }
+    reproc_wait(p, 5000);
     reproc_destroy(p);
   } else {
     if (!pup.wait_ready(10000, reproc_pid(p))) {
